@@ -97,6 +97,21 @@ func (e *evaluator) eval(x ast.Expr) (value, bool) {
 		}
 		v, ok := e.consts[t.Name]
 		return v, ok
+	case *ast.SelectorExpr:
+		// the few constants of package math the sources use
+		if id, ok := t.X.(*ast.Ident); ok && id.Name == "math" {
+			switch t.Sel.Name {
+			case "MaxInt64":
+				return value{n: new(big.Int).SetUint64(1<<63 - 1)}, true
+			case "MinInt64":
+				return value{n: new(big.Int).Neg(new(big.Int).SetUint64(1 << 63))}, true
+			case "MaxInt32":
+				return value{n: big.NewInt(1<<31 - 1)}, true
+			case "MaxUint32":
+				return value{n: big.NewInt(1<<32 - 1)}, true
+			}
+		}
+		return value{}, false
 	case *ast.UnaryExpr:
 		v, ok := e.eval(t.X)
 		if !ok || v.isStr {
